@@ -27,6 +27,11 @@ NntFails(r) ==
       \o F("distance-matrix", Len(r.D) = r.np /\ \A i \in 1..r.np : Len(r.D[i]) = r.np /\ (~Lattice(r) => r.D[i][i] = r.zero))
       \o TreeFails(r.tree, r.D, r.np, r.b))
   \o F("save-load-text", r.rtt) \o F("save-load-binary", r.rtb) \o F("stream-operators", r.rto)
+  \* the object as a state machine (state observed through Save): the constructor with points is Initialize; Initialize on an object
+  \* that holds another tree ("Initialize or re-initialize"); "If an exception is thrown, the state of the NearestNeighbor is
+  \* unchanged" (Initialize with a bad bucket, Load of garbage and of a truncated save); swap exchanges the states
+  \o F("constructor-is-initialize", r.hctor) \o F("reinitialize-equals-fresh", r.hreinit)
+  \o F("unchanged-if-exception", r.hunch) \o F("swap", r.hswap)
 
 NnsFails(r) ==
   F("no-exception", r.out = "ok")
@@ -41,10 +46,15 @@ ResOK(p) == \A i \in {2, 4} : p[i] >= -TolLat /\ p[i] <= TolLat
 P2(p) == <<p[1], p[3]>>
 Dbl(p) == <<2 * p[1], 2 * p[2]>>
 
+\* ellipsoids other than the unit-degree sphere (ell > 0: a = 180/pi, exact solver) only for pairs of equators, where one
+\* degree of longitude is one metre on every ellipsoid
+EllOK(r) == r.ell = 0 \/ (r.ell \in 1..4 /\ Equatorial(r.A) /\ Equatorial(r.B) /\ Meet(r.A, r.B).kind = "coin")
+AtOrigin(p) == P2(p) = <<0, 0>> /\ ResOK(p)
+
 IcFails(r) ==
   LET m == Meet(r.A, r.B)  sA == r.A[3]  sB == r.B[3] IN
   F("no-exception", r.out = "ok")
-  \o (IF m.kind = "cross"
+  \o (IF ~EllOK(r) THEN <<"not-a-lattice-pair">> ELSE IF m.kind = "cross"
       THEN F("round-off", ResOK(r.p)) \o F("coincidence-indicator", r.c = 0)
            \o F("closest-minimises-L1", P2(r.p) \in ClosestSet(2 * (m.a0 - sA), 2 * (m.b0 - sB), 360, Dbl(r.p0)))
       ELSE IF m.kind = "coin"
@@ -53,25 +63,60 @@ IcFails(r) ==
            \o F("closest-minimises-L1", r.l1[1] = 2 * CoinMinDist(m, sA, sB, r.p0) /\ r.l1[2] >= -2 * TolLat /\ r.l1[2] <= 2 * TolLat)
       ELSE <<"not-a-lattice-pair">>)
 
+LinOK(r) == r.lin[2] >= -2 * TolLat /\ r.lin[2] <= 2 * TolLat
+
 InFails(r) ==
   LET m == Meet(r.A, r.B) IN
   F("no-exception", r.out = "ok")
-  \o (IF m.kind # "cross" THEN <<"not-a-lattice-pair">>
-      ELSE F("round-off", ResOK(r.p)) \o F("coincidence-indicator", r.c = 0)
-           \o F("next-minimises-L1", P2(r.p) \in NextSet(2 * (m.a0 - r.A[3]), 2 * (m.b0 - r.B[3]), 360)))
+  \o (IF ~EllOK(r) THEN <<"not-a-lattice-pair">>
+      ELSE IF m.kind = "cross"
+      THEN F("round-off", ResOK(r.p)) \o F("coincidence-indicator", r.c = 0)
+           \o F("next-minimises-L1", P2(r.p) \in NextSet(2 * (m.a0 - r.A[3]), 2 * (m.b0 - r.B[3]), 360))
+      ELSE IF m.kind = "coin" /\ CoinK0(m, r.A[3], r.B[3]) = 0
+      \* one circle taken twice: the answer is a common point (on a coincidence line), not the origin, with the right c
+      THEN F("coincidence-indicator", r.c = m.c)
+           \o F("on-coincidence-line", r.c \in {-1, 1} => LinOK(r) /\ r.lin[1] % 720 = 0)
+           \o F("next-excludes-origin", ~AtOrigin(r.p))
+      ELSE <<"not-a-lattice-pair">>)
+
+\* Next on one geodesic taken twice (parallel c = 1 / antiparallel c = -1), started at a vertex, on the ellipsoid r.ell: the lines
+\* lie on top of one another everywhere, so an answer on them carries that c (a transversal self-crossing of the geodesic, c = 0,
+\* may also be the next intersection: prolate ellipsoids), is a common point (separation z, nm at WGS84 scale) and is not the origin
+NvFails(r) ==
+  F("no-exception", r.out = "ok" /\ r.ell \in 0..4 /\ r.cc \in {-1, 1})
+  \o F("coincidence-indicator", r.c \in {r.cc, 0} /\ (r.c # 0 => r.sn <= SnCoin /\ (r.anti = 1) = (r.c < 0)))
+  \* on the same branch (y = cc x; blin = |y - cc x| in nm at WGS84 scale) the lines lie on top of one another: c = cc, not 0
+  \o F("coincidence-indicator-on-the-same-branch", r.blin <= 2 * (2 * XErr(1, r.ell > 0) + TolRound + 5) => r.c = r.cc)
+  \o F("on-both-lines", r.z >= 0 /\ r.z <= 2 * XErr(1, r.ell > 0) + TolRound + 5 + 2 * r.um)
+  \o F("next-excludes-origin", ~AtOrigin(r.p))
+
+\* the part of NvFails that says nothing about c (a record of its own for the input class of a known finding)
+NvoFails(r) ==
+  F("no-exception", r.out = "ok" /\ r.ell \in 0..4 /\ r.cc \in {-1, 1})
+  \o F("on-both-lines", r.z >= 0 /\ r.z <= 2 * XErr(1, r.ell > 0) + TolRound + 5 + 2 * r.um)
+  \o F("next-excludes-origin", ~AtOrigin(r.p))
 
 IsFails(r) ==
   LET m == Meet(r.A, r.B) IN
   F("no-exception", r.out = "ok")
-  \o (IF m.kind # "cross" THEN <<"not-a-lattice-pair">>
-      ELSE F("round-off", ResOK(r.p)) \o F("coincidence-indicator", r.c = 0)
-           \o F("segment-answer-and-segmode", <<P2(r.p), r.segmode>> \in SegmentSet(2 * (m.a0 - r.A[3]), 2 * (m.b0 - r.B[3]), 2 * r.lenA, 2 * r.lenB)))
+  \o (IF ~EllOK(r) THEN <<"not-a-lattice-pair">>
+      ELSE IF m.kind = "cross"
+      THEN F("round-off", ResOK(r.p)) \o F("coincidence-indicator", r.c = 0)
+           \o F("segment-answer-and-segmode", <<P2(r.p), r.segmode>> \in SegmentSet(2 * (m.a0 - r.A[3]), 2 * (m.b0 - r.B[3]), 2 * r.lenA, 2 * r.lenB))
+      ELSE IF m.kind = "coin"
+      THEN LET Ks == CoinKs(m, r.A[3], r.B[3])  SX == 2 * r.lenA  SY == 2 * r.lenB IN
+           F("round-off", ResOK(r.p)) \o F("coincidence-indicator", r.c = m.c)
+           \o F("on-coincidence-line", OnCoin(P2(r.p), m.c, Ks))
+           \o F("segmode-definition", r.segmode \in SegModes(P2(r.p), SX, SY))
+           \o F("overlapping-segments-intersect", Overlap(m.c, Ks, SX, SY) => r.segmode = 0 /\ InBoth(P2(r.p), SX, SY))
+           \o F("closest-to-the-midpoints", ~Overlap(m.c, Ks, SX, SY) => L1(P2(r.p), <<SX \div 2, SY \div 2>>) = CoinDist(<<SX \div 2, SY \div 2>>, m.c, Ks))
+      ELSE <<"not-a-lattice-pair">>)
 
 \* AllEdgeFree: an intersection whose distance equals maxdist exactly may or may not be listed (round-off)
 IaFails(r) ==
   LET m == Meet(r.A, r.B) IN
   F("no-exception", r.out = "ok")
-  \o (IF m.kind # "cross" THEN <<"not-a-lattice-pair">>
+  \o (IF m.kind # "cross" \/ r.ell # 0 THEN <<"not-a-lattice-pair">>
       ELSE LET X0 == 2 * (m.a0 - r.A[3])  Y0 == 2 * (m.b0 - r.B[3])  P0 == Dbl(r.p0)
                must == Within(X0, Y0, 360, P0, 2 * r.maxd - 1)
                may == Within(X0, Y0, 360, P0, 2 * r.maxd)
@@ -86,9 +131,9 @@ IaFails(r) ==
 (* ------------------------------------------------------------------------ *)
 Fails(r) ==
   CASE r.e = "nnt" -> NntFails(r) [] r.e = "nns" -> NnsFails(r)
-    [] r.e = "ic" -> IcFails(r) [] r.e = "in" -> InFails(r) [] r.e = "is" -> IsFails(r) [] r.e = "ia" -> IaFails(r)
+    [] r.e = "ic" -> IcFails(r) [] r.e = "in" -> InFails(r) [] r.e = "nv" -> NvFails(r) [] r.e = "nvo" -> NvoFails(r) [] r.e = "is" -> IsFails(r) [] r.e = "ia" -> IaFails(r)
     [] r.e = "az" -> AzFails(r) [] r.e = "gn" -> GnFails(r) [] r.e = "cs" -> CsFails(r)
-    [] r.e = "xc" -> XcFails(r) [] r.e = "xn" -> XnFails(r) [] r.e = "xs" -> XsFails(r) [] r.e = "xa" -> XaFails(r)
+    [] r.e = "xc" -> XcFails(r) [] r.e = "xn" -> XnFails(r) [] r.e = "xo" -> XoFails(r) [] r.e = "xs" -> XsFails(r) [] r.e = "xa" -> XaFails(r)
     [] OTHER -> <<"unknown-record-kind">>
 
 Init == l = 1 /\ KitInit
